@@ -75,12 +75,13 @@ def run_case(ctx, name, params):
     fn = lambda x: [sum((a - m_) ** 2 for a, m_ in zip(x, mids)) + 1.0]
     attempts = {}     # individual id -> attempts so far
     idx_of = {}
+    scripts_all = list(scripts)
 
     def script(call_no, vec, individual):
         d = idx_of[individual.id]
         k = attempts.get(individual.id, 0)
         attempts[individual.id] = k + 1
-        s = scripts[d]
+        s = scripts_all[d]
         if k < len(s):
             ch = s[k]
             exc = (TRANSIENT.get(ch) or OTHER[ch])("scripted failure %s attempt %d of design %d" % (ch, k + 1, d))
@@ -99,6 +100,23 @@ def run_case(ctx, name, params):
     vrng.install(vrng.SeededRandom(params["seed"]))
     alg = DummyAlgorithm(p)
     alg.options["max_processes"] = procs
+    if params.get("warmup", params["seed"] % 3 == 0):
+        # an earlier batch on the same algorithm/job object, with its own (non-fatal) failures: nothing counted there may
+        # carry over into the batch that is judged
+        ws = ["TR"[r.randrange(2)] * r.randint(0, 4) for _ in range(r.randint(1, 3))]
+        warm = []
+        for w_ in ws:
+            wi = Individual([r.uniform(lb, ub) for lb, ub in bxs])
+            idx_of[wi.id] = len(scripts_all)
+            scripts_all.append(w_)
+            warm.append(wi)
+        try:
+            alg.evaluate(warm)
+        except BaseException:
+            pass
+        ctx.count("warmup_batches")
+        del p.failed[:]
+        del p.calls[:]
     batch = []
     for d in range(len(scripts)):
         ind = Individual([r.uniform(lb, ub) for lb, ub in bxs])
